@@ -1178,6 +1178,11 @@ class BeltStore(Store):
 
         Computes delay using same logic as for existing items.
         """
+        if not self.accumulation_mode_indicator:
+            # a stopped non-accumulating belt moves nothing: the new item stays where it was put
+            item_id = item[0].id if hasattr(item[0], 'id') else str(id(item))
+            self._interrupt_specific_item(item_id, "New item during interruption")
+            return
         
 
         # Build the updated belt pattern with new item
